@@ -224,7 +224,13 @@ func (ch c20) Run(c *core.Ctx) {
 		}
 		// through the wire: Describe announces the returned length
 		if len(q) < 60000 && !strings.ContainsRune(q, 0) && strings.TrimSpace(q) != "" && len(res) <= 65535 {
-			out, closed := cl.Step(append(append(pg.Parse("", q, nil), pg.Describe('S', "")...), pg.Sync()...))
+			// the client may prespecify any number of parameter types; the count announced by
+			// Describe is still the handler's (ParseParameters) list length
+			var oids []uint32
+			for k := idx % 6; k > 0; k-- {
+				oids = append(oids, []uint32{23, 25, 0, 1043, 20}[(idx+k)%5])
+			}
+			out, closed := cl.Step(append(append(pg.Parse("", q, oids), pg.Describe('S', "")...), pg.Sync()...))
 			if hangCheck(c, cl, cs) {
 				return
 			}
